@@ -191,8 +191,27 @@ func genEnc(r *gen.Rand) []string {
 	return []string{gen.Pick(r, cfgsPlain), gen.Hex(ce)}
 }
 
+// sizeClasses: capacities Go's append gives a fresh []byte. fasthttp stores a header value with
+// append(kv.value[:0], v...), so on a FRESH server (cfg "f") a value of exactly such a length has
+// len == cap: only then does a slice expression one past the end panic instead of reading slack.
+var sizeClasses = []int{8, 16, 24, 32, 48, 64, 80, 96, 112, 128}
+
+// padToSizeClass prefixes list elements ("x,") so that the header's length is a size class.
+func padToSizeClass(h string) string {
+	for _, c := range sizeClasses {
+		if len(h) == c {
+			return h
+		}
+		if len(h) < c {
+			return strings.Repeat("x", c-len(h)-1) + "," + h
+		}
+	}
+	return h
+}
+
 func genAcc(r *gen.Rand) []string {
-	tok := []string{"utf-8", "*", "iso-8859-1", "utf", "\"a,b\"", "a\\\"b", "x/y", "*/*", "text/*", "", " ", "\"", "\"utf-8", "a\\", "\\\"", "x\"y\"z"}
+	tok := []string{"utf-8", "*", "iso-8859-1", "utf", "\"a,b\"", "a\\\"b", "x/y", "*/*", "text/*", "", " ", "\"", "\"utf-8", "a\\", "\\\"", "x\"y\"z",
+		"\"a\\", "x;a=\"b\\", "\"\\\\", "\"a,b\\"}
 	var parts []string
 	for i := r.Intn(4); i >= 0; i-- {
 		parts = append(parts, gen.Pick(r, []string{"", " "})+gen.Pick(r, tok))
@@ -202,13 +221,22 @@ func genAcc(r *gen.Rand) []string {
 	for i := r.Intn(3); i >= 0; i-- {
 		offers = append(offers, gen.Pick(r, []string{"utf-8", "iso-8859-1", "utf", "x", "a", "\"a,b\""}))
 	}
-	return []string{gen.Pick(r, cfgsPlain), gen.Hex(h), gen.HexList(offers)}
+	cfg := gen.Pick(r, cfgsPlain)
+	if r.Chance(1, 3) {
+		cfg, h = "f", padToSizeClass(h)
+	}
+	return []string{cfg, gen.Hex(h), gen.HexList(offers)}
 }
 
 func genOffer(r *gen.Rand) []string {
-	spec := gen.Pick(r, []string{"text/html", "text/*", "*/*", "application/json", "image/*", "text/htm", "te", "text", "/", "text/", "*", "application/*", "image/png"})
+	spec := gen.Pick(r, []string{"text/html", "text/*", "*/*", "application/json", "image/*", "text/htm", "te", "text", "/", "text/", "*", "application/*", "image/png",
+		"text/html;a=\"x\\", "text/html;a=\"x,y\";q=0.5", "text/*;a=\"\\\"\"", "a/b;c=\"d\\\\", "text/html;a=\""})
 	offer := gen.Pick(r, []string{"html", "json", "png", "text/html", "text/*", "application/xml", "txt", "xml", "text/plain", "image/png", "unknownext"})
-	return []string{gen.Pick(r, cfgsPlain), gen.Hex(spec), gen.Hex(offer)}
+	cfg := gen.Pick(r, cfgsPlain)
+	if r.Chance(1, 3) {
+		cfg, spec = "f", padToSizeClass(spec)
+	}
+	return []string{cfg, gen.Hex(spec), gen.Hex(offer)}
 }
 
 func genMethod(r *gen.Rand) []string {
